@@ -31,7 +31,22 @@ def units(tier: str) -> list[tuple]:
     us += [("x06", u) for u in c06.units(tier) if u[0] in ("alg", "dict")]
     us += [("x07", u) for u in c07.units("quick")]
     us += [("x14", u) for u in c14.units("quick")]
+    us.append(("xplace",))
     return us
+
+
+# places where the grammar takes an expression-like thing that is NOT an ordinary Load expression: every xonsh construct is
+# put there; whatever is accepted must still be a tree that compile() takes
+XPLACES = [
+    "match w:\n    case {H}:\n        pass\n", "match w:\n    case ({H}, q) as x:\n        pass\n", "match w:\n    case {{{H}: 1}}:\n        pass\n",
+    "match w:\n    case C({H}, k={H}):\n        pass\n", "match w:\n    case [{H}, *_] | {H}:\n        pass\n", "match {H}:\n    case _:\n        pass\n",
+    "match w:\n    case _ if {H}:\n        pass\n", "@{H}\ndef f(): pass\n", "def f(a={H}, *, b: {H} = {H}) -> {H}: pass\n", "class C({H}, metaclass={H}): pass\n",
+    "x: {H} = {H}\n", "del {H}\n", "del ({H}), a\n", "global {H}\n", "import {H}\n", "from a import {H}\n", "{H} += {H}\n", "({H} := 1)\n", "[a for a in {H} if {H}]\n",
+    "lambda {H}: 0\n", "lambda a={H}: {H}\n", "x[{H}:{H}, {H}]\n", "f(*{H}, **{H})\n", "{{**{H}, {H}: {H}}}\n", "try:\n    pass\nexcept {H} as e:\n    pass\n",
+    "try:\n    pass\nexcept* {H}:\n    pass\n", "raise {H} from {H}\n", "assert {H}, {H}\n", "with {H}:\n    pass\n", "async def g():\n    await {H}\n    yield {H}\n",
+    "def g():\n    return {H}\n    yield from {H}\n", "type X = {H}\n", "def f[T: {H}](): pass\n", "print(f'{{{H}}}', f'{{a:{{{H}}}}}')\n", "for {H} in {H}:\n    pass\nelse:\n    {H}\n",
+    "while {H}:\n    break\n", "x = {H} if {H} else {H}\n", "x = not {H} or -{H} ** {H}\n", "x = {H} < {H} is not {H} in {H}\n", "x = *{H},\n", "{H}.a.b = {H}[0] = 1\n",
+]
 
 
 def cases(unit: tuple):
@@ -50,6 +65,12 @@ def cases(unit: tuple):
 
         for c in c07.cases(unit[1]):
             yield (c["src"] if "src" in c else c07._with_src(c)[0]), "exec"
+    elif unit[0] == "xplace":
+        from . import c05
+
+        for con, _py, _span in c05.CONSTRUCTS:
+            for place in XPLACES:
+                yield place.replace("{{", "\0").replace("}}", "\1").replace("{H}", con).replace("\0", "{").replace("\1", "}"), "exec"
     elif unit[0] == "x14":
         from . import c14
 
